@@ -1091,9 +1091,12 @@ impl CompilerContext<'_> {
     }
 
     fn all_signatures(&self) -> impl Iterator<Item=&'_ Signature> {
-        let ins_sigs = self.defs.instrs.values().map(|data| &data.sig);
-        let non_ins_sigs = self.defs.funcs.values().filter_map(|func| func.sig.as_ref());
-        ins_sigs.chain(non_ins_sigs)
+        // sorted by key, so that the order of diagnostics does not depend on hash order
+        let mut ins_sigs = self.defs.instrs.iter().map(|(&key, data)| (key, &data.sig)).collect::<Vec<_>>();
+        ins_sigs.sort_by_key(|&(key, _)| key);
+        let mut non_ins_sigs = self.defs.funcs.iter().filter_map(|(&key, func)| func.sig.as_ref().map(|sig| (key, sig))).collect::<Vec<_>>();
+        non_ins_sigs.sort_by_key(|&(key, _)| key);
+        ins_sigs.into_iter().map(|(_, sig)| sig).chain(non_ins_sigs.into_iter().map(|(_, sig)| sig))
     }
 
     fn validate_mapfile_signatures(&self) -> Result<(), ErrorReported> {
